@@ -150,6 +150,51 @@ func tyeqCase(a, b *T, tag string) Case {
 	return c
 }
 
+// tyeqSharedCase: the left type reuses one *types.Type pointer for two components (a DAG); the
+// right type agrees on the first occurrence and may differ on the second.
+func tyeqSharedCase(g *tyGen) Case {
+	sub := g.gen(2)
+	if sub.depth() == 0 {
+		sub = tObj(TF{"x", sub}, TF{"y", tNum})
+	}
+	other := sub
+	tag := "shared-same"
+	if g.r.Intn(2) == 0 {
+		other = g.mutate(sub)
+		tag = "shared-mutant"
+	}
+	var a, b *T
+	switch g.r.Intn(3) {
+	case 0:
+		a = tObj(TF{"from", sub}, TF{"to", sub})
+		b = tObj(TF{"from", sub}, TF{"to", other})
+	case 1:
+		a = tFun("f", []*T{sub, sub}, tNum)
+		b = tFun("f", []*T{sub, other}, tNum)
+	default:
+		a = tMap(tStr, tObj(TF{"l", tList(sub)}, TF{"r", tList(sub)}))
+		b = tMap(tStr, tObj(TF{"l", tList(sub)}, TF{"r", tList(other)}))
+	}
+	if !buildable(a, b) {
+		return skipCase("tyeq-shared")
+	}
+	c := Case{Human: "tyeq[" + tag + "] " + a.String() + " ~ " + b.String(), Tags: []string{"tyeq:" + tag}, Nontriv: true}
+	c.Req = sxList("tyeq", a.sx(), b.sx())
+	c.Want = safely(func() string {
+		x := a.buildShared(map[*T]*types.Type{})
+		y := b.build()
+		ab := types.Equals(x, y)
+		ba := types.Equals(y, x)
+		if ab != ba {
+			c.Oracle, c.OracleID = "Equals(a,b) != Equals(b,a) on a type with shared components", "tyeq-not-symmetric"
+		} else if ab != refEq(a, b) {
+			c.Oracle, c.OracleID = "Equals disagrees with structural identity on a type with shared components", "tyeq-not-structural"
+		}
+		return sxList("ok", sxBool(ab))
+	})
+	return c
+}
+
 func tyeqTransCase(a, b, c3 *T) Case {
 	c := Case{Human: "tyeq-trans " + a.String() + " ~ " + b.String() + " ~ " + c3.String(), Tags: []string{"tyeq:trans"}}
 	res := safely(func() string {
@@ -377,6 +422,9 @@ func init() {
 						c3 = gv.mutate(b)
 					}
 					cs = append(cs, tyeqTransCase(a, b, c3))
+				}
+				if i%6 == 0 {
+					cs = append(cs, tyeqSharedCase(gv))
 				}
 				switch i % 4 {
 				case 0:
